@@ -84,9 +84,14 @@ package message
 //@     calls(parseAttrsLegacy) == p0 + 1 && arg(parseAttrsLegacy, p0, 0) == attrsStr &&
 //@     ("req" in dom(ret(parseAttrsLegacy, p0, 0))) &&
 //@     result0.SSHClientVersion == ret(parseAttrsLegacy, p0, 0)["SSHClientVersion"])
+//@   ensures [requester-is-user-at-host] err == nil ==> (splitCount(ret(parseAttrsLegacy, p0, 0)["req"], "@") == 2 &&
+//@     result0.Username == splitPart(ret(parseAttrsLegacy, p0, 0)["req"], "@", 0) && result0.Hostname == splitPart(ret(parseAttrsLegacy, p0, 0)["req"], "@", 1))
+//@   ensures [malformed-requester-is-an-error] (calls(parseAttrsLegacy) == p0 + 1 && (!("req" in dom(ret(parseAttrsLegacy, p0, 0))) ||
+//@     splitCount(ret(parseAttrsLegacy, p0, 0)["req"], "@") != 2)) ==> err != nil
 //@   ensures [tokens-mirrored] err == nil ==> forall(k#string, k in dom(ret(parseAttrsLegacy, p0, 0)), k in dom(result0.Exts))
 //@   loop 1:
 //@     invariant a != nil && a.Exts != nil && a.TouchlessSudo != nil && fresh(a) && fresh(a.Exts) && attrs == ret(parseAttrsLegacy, p0, 0) && attrs != nil &&
 //@       calls(parseAttrsLegacy) == p0 + 1 && arg(parseAttrsLegacy, p0, 0) == attrsStr && ("req" in dom(attrs)) &&
-//@       a.SSHClientVersion == attrs["SSHClientVersion"]
+//@       a.SSHClientVersion == attrs["SSHClientVersion"] && splitCount(attrs["req"], "@") == 2 &&
+//@       a.Username == splitPart(attrs["req"], "@", 0) && a.Hostname == splitPart(attrs["req"], "@", 1)
 //@     invariant forall(k#string, visited(k), k in dom(a.Exts))
